@@ -399,6 +399,8 @@ def impl(case):
                     raise NotImplementedError(code)
             except (AttributeError, ValueError, IndexError) as ex:
                 rc = _EXC[type(ex).__name__]
+            except Exception:  # anything else (RecursionError, ...) is an internal failure of the mutation
+                rc = 99
             out.append([rc] + snapshot())
         s.rollback()
     return out
@@ -467,6 +469,8 @@ def oracle(case, obs):
             if o[1] != o[2]:
                 return "%s%s: after flush and reload side A sees %s, side B sees %s" % (tag, where, o[1], o[2])
             return None
+        if o[0] == 99:
+            return "%s: the mutation failed with an internal error" % where
         a, b = o[1], o[2]
         # classification of the operation, from the state before it
         pa, pb = prev
